@@ -295,10 +295,12 @@ def processHeader (s : State) (b : BlockAbs) : State × Res :=
   | (s1, _) => updateBestHdr s1 b
 
 /-- clean shutdown and restart on the same database (`initChainState`): only nodes whose data is
-stored are persisted, the orphan pool is gone, the best-header view restarts at the active tip.
+stored are persisted (with their statuses), the orphan pool is gone, the best-header view restarts
+at the active tip.
 Not an `Op` of the proved histories: used by the driver for the restart correspondence. -/
 def restart (s : State) : State :=
   { s with idx := s.idx.filter (fun n => (s.status n.blk.hash).data),
+           st := s.st.filter (fun p => (s.status p.1).data),
            orphans := [], oldest := none, bestHdr := s.tip }
 
 /-- `GetOrphanRoot` -/
